@@ -15,10 +15,10 @@ for m in $ids; do
   (git apply $d/patch.diff 2>/dev/null || git apply -3 $d/patch.diff 2>/dev/null) || { echo "$m: PATCH DOES NOT APPLY"; continue; }
   suite=$(go build ./... 2>&1 && go test -vet=off -count=1 -timeout 20m ./... 2>&1 | grep -c "^FAIL\|^--- FAIL")
   cp $d/demo_test.go "$dir/zz_demo_test.go"
-  with=$(go test -vet=off -count=1 -timeout 10m -run 'TestDemo' "./$dir/" 2>&1 | grep -c "^--- FAIL\|^FAIL")
+  with=$(go test -vet=off -count=1 -timeout 10m -run 'Demo' "./$dir/" 2>&1 | grep -c "^--- FAIL\|^FAIL")
   git reset -q --hard HEAD && git clean -fdq
   cp $d/demo_test.go "$dir/zz_demo_test.go"
-  without=$(go test -vet=off -count=1 -timeout 10m -run 'TestDemo' "./$dir/" 2>&1 | grep -c "^--- FAIL\|^FAIL")
+  without=$(go test -vet=off -count=1 -timeout 10m -run 'Demo' "./$dir/" 2>&1 | grep -c "^--- FAIL\|^FAIL")
   rm -f "$dir/zz_demo_test.go"
   ok=no
   [ "$suite" = "0" ] && [ "$with" != "0" ] && [ "$without" = "0" ] && ok=yes
